@@ -1,4 +1,5 @@
 CONSTANTS EP = ${EP}  Prefixes = ${Prefixes}  Types = ${Types}
+CONSTANT Focus = ${Focus}
 CONSTANT AllowedChoices = {{}}
 INIT Init
 NEXT GenNext
